@@ -24,9 +24,9 @@ ASSUMPTIONS = [
     'molecular opacities recomputed from the generated tables (C04 reference); CIA/Rayleigh opacities as the contribution reports them; layer thickness = model.deltaz (judged in C11)',
     'rtol 1e-8 (fastmath Planck kernel)',
 ]
-RULE = RULE + ' ' + 'Worlds also come in integer-axis forms (wavenumber and/or temperature axes held as integer arrays of the same values).'
+RULE = RULE + ' ' + 'Worlds also come in integer-axis forms (wavenumber and/or temperature axes held as integer arrays of the same values). Histories: after the first evaluation the star temperature is changed on the same model object and the model evaluated again on the same grid (clause star-changed).'
 REQUIRED = {'refused-quadrature-before-use': 0.2, 'kind:emission': 0.3, 'kind:directimage': 0.2, 'profile:iso': 0.1, 'profile:noniso': 0.3,
-            'regime:mixed': 0.08}
+            'regime:mixed': 0.08, 'star-changed': 0.3}
 PARSEC = 3.08567758e16
 
 
@@ -37,7 +37,9 @@ def _case(draw):
     dist = draw(st.floats(1.0, 500.0))
     w = draw(S.world(extras=('CIA', 'Rayleigh')))
     # a refused setting on the built model before it is used: a quadrature of zero points (the caller catches the error)
-    return {'world': w, 'kind': kind, 'ngauss': ngauss, 'dist': dist, 'refused_gauss': draw(S.pick([None, 0, None, -1]))}
+    # a later change of the star on the same model object (what a retrieval fitting a stellar parameter does)
+    return {'world': w, 'kind': kind, 'ngauss': ngauss, 'dist': dist, 'refused_gauss': draw(S.pick([None, 0, None, -1])),
+            'star_T2': draw(st.floats(2500.0, 9000.0))}
 
 
 def strategy(tier):
@@ -195,6 +197,27 @@ def check(case):
                     break
         except CutError:
             pass
+    # ---- the star is changed on the same model object and the model evaluated again on the same grid: the ratio follows
+    # the new stellar blackbody (emission), the direct image does not depend on the star at all
+    if not borderline and case.get('star_T2') is not None:
+        out.cls('star-changed')
+        out.applies('star-changed')
+        try:
+            m.star.temperature = case['star_T2']
+            with np.errstate(all='ignore'):
+                r2 = cut(out, 'model@star-changed', m.model)
+            s2 = np.asarray(r2[1], dtype=float)
+            if kind == 'emission':
+                want2 = flux * (Rp / Rs) ** 2 / ref.planck_wn(W.wn, case['star_T2'])
+            else:
+                want2 = want
+            if s2.shape != want2.shape or not close(s2, want2, rtol=1e-8, atol=tiny):
+                out.fail('star-changed@%s' % kind, 'after star.temperature = %r: got %s want %s (max rel %.2e)'
+                         % (case['star_T2'], s2[:3], want2[:3], maxrel(s2, want2) if s2.shape == want2.shape else -1))
+        except CutError:
+            pass
+        finally:
+            m.star.temperature = w['star_T']
     out.applies('hot-cold-bounds')
     if np.any(spec < lo * (1 - 1e-8 - slack) - tiny) or np.any(spec > hi * (1 + 1e-8 + slack) + tiny):
         k = int(np.argmax(np.maximum(lo - spec, spec - hi) / np.maximum(hi, tiny)))
